@@ -571,6 +571,12 @@ fn outcome_plans() -> Vec<(&'static str, Vec<Plan>, Vec<Fault>)> {
         ("wait-failure", vec![Plan::new(Fate::Pass), Plan::new(Fate::Pass)], vec![Fault::Wait { proc: 0, errno: 10 }]),
         ("poll-eintr", vec![Plan::new(Fate::Pass), Plan::new(Fate::Pass)], vec![Fault::PollEintr { proc: 1, nth: 1 }]),
         ("bg-hold-timeout", vec![Plan::new(Fate::BgHold { ns: 30 * SEC }).cfg(to(2 * SEC)), Plan::new(Fate::Pass)], vec![]),
+        (
+            "closed-streams-timeout",
+            vec![Plan::new(Fate::Pass), Plan::new(Fate::CloseThenLinger { ns: Some(30 * SEC) }).cfg(to(SEC)), Plan::new(Fate::Pass)],
+            vec![],
+        ),
+        ("closed-streams-linger-ok", vec![Plan::new(Fate::CloseThenLinger { ns: Some(200 * MS) }), Plan::new(Fate::Pass)], vec![]),
     ]
 }
 
